@@ -394,8 +394,8 @@ PROPS["C29"] = dict(
 PROPS["C25"] = dict(
     level="exploration",
     technique="property-based testing (rapid) of generated timed plans in a testing/synctest bubble against a wire-level fake Redis: dedicated sessions interleaved with pipelined and blocking traffic and calls on released handles; oracle = per-connection server log (contiguous session blocks), reference model of keys/WATCH/MULTI replayed over the log, session state of the fake at the next hand-out of the connection, hang detection",
-    level_text="1-3 dedicated sessions (Dedicated(fn) or Dedicate(); WATCH/GET/MULTI/SET/EXEC through Do and DoMulti, SetPubSubHooks with SUBSCRIBE/PSUBSCRIBE/SSUBSCRIBE, Receive, SetOnInvalidations with CLIENT TRACKING; synchronous and pipelined connection modes; released, closed or closed twice; optionally leaving a transaction open) run with generated pauses while other callers use the shared pipeline and the blocking pool (BlockingPoolSize 1-3), keys are modified and messages published from outside, and the released handles are called again. Each session's commands must be one contiguous block on one pool connection, every reply must be the one a reference model derives from the server's execution order (EXEC aborts only for the session's own WATCH), a released handle must reject every call and reach no connection, and the connection must be handed on without subscriptions, hooks, tracking or transaction state.",
-    level_note="RESP3 single client only (RESP2 Pub/Sub uses a second connection). Four recorded defects bound what is judged: state of an abandoned WATCH/MULTI survives release (C25.abandoned-tx-leaks), the clean-up after an abandoned MULTI panics on a pipelined connection (C25.abandoned-multi-panics, such plans are not generated while on record), Close on a released handle closes the connection under its next user (C25.close-after-release), SetPubSubHooks after SetOnInvalidations leaves tracking on (C25.sethooks-drops-oninvalidations). Delivery of messages while subscribed is not asserted, only that nothing arrives after release. " + LIMITS,
+    level_text="1-3 dedicated sessions (Dedicated(fn) or Dedicate(); WATCH/GET/MULTI/SET/EXEC through Do and DoMulti, SetPubSubHooks with SUBSCRIBE/PSUBSCRIBE/SSUBSCRIBE, Receive, SetOnInvalidations with CLIENT TRACKING; synchronous and pipelined connection modes; released, closed or closed twice; optionally ending with a racing call: a read-only Do/DoMulti answered -LOADING for its first 1-3 attempts, retried with a generated RetryDelay in its own goroutine while the session is released or closed inside a retry back-off or after the call) run with generated pauses while other callers use the shared pipeline and the blocking pool (BlockingPoolSize 1-3), keys are modified and messages published from outside, and the released handles are called again. Each session's commands must be one contiguous block on one pool connection, every reply must be the one a reference model derives from the server's execution order (EXEC aborts only for the session's own WATCH), a released handle must reject every call and reach no connection (no command issued through a handle is received later than its release/Close returned, which also covers retries that were waiting in their back-off), and the connection must be handed on without subscriptions, hooks, tracking or transaction state.",
+    level_note="RESP3 single client only (RESP2 Pub/Sub uses a second connection; the cluster dedicated client is not exercised). Sessions that release with an open MULTI or a pending WATCH are outside the property and not generated. SetPubSubHooks after SetOnInvalidations leaves tracking on (open finding C25.sethooks-drops-oninvalidations). Release instants of racing calls are odd multiples of RetryDelay/2, never the instant of an attempt, so the strict comparison with the release time has no ties; Receive retries (transport errors on a healthy wire) are not generated. Delivery of messages while subscribed is not asserted, only that nothing arrives after release. " + LIMITS,
     units=[U("harness", "props", "TestVerif_C25_Dedicated", T(1200, timeout=300), T(4000, shards=16, timeout=1500), variants=QUEUES)],
 )
 
